@@ -9,10 +9,14 @@ evaluates the mechanism model and the specification.  Pixel values travel as flo
 Beside the reference calls (explicit collection methods, full=True) every case carries `calls`: further calls of the entry
 points with each option given or omitted (full=False — the default — returns the bare image), on a Path or a str; the driver
 evaluates the Lean entry-point models (PewModel/Agilent.lean section 9) for exactly those option tuples."""
+import copy
+import hashlib
 import json
 import logging
 import math
+import os
 import pathlib
+import shutil
 import struct
 import sys
 import warnings
@@ -27,6 +31,16 @@ TICK = 4096  # ScanTime is generated as ticks/4096 minutes: exact in float64, an
 
 ELEMENTS = [("Li", 7), ("C", 13), ("Na", 23), ("Mg", 24), ("Al", 27), ("P", 31), ("Ca", 44), ("Fe", 56), ("Cu", 63),
             ("Zn", 66), ("Sr", 88), ("Ag", 107), ("Eu", 153), ("Gd", 157), ("W", 182), ("Au", 197), ("Pb", 208), ("U", 238)]
+# a wider isotope table (distinct masses) for batches with more masses than the short list holds
+ISOTOPES = [("Li", 7), ("Be", 9), ("B", 11), ("C", 13), ("N", 15), ("Na", 23), ("Mg", 24), ("Mg", 25), ("Mg", 26), ("Al", 27), ("Si", 28),
+            ("Si", 29), ("P", 31), ("S", 32), ("S", 34), ("Cl", 35), ("K", 39), ("Ca", 43), ("Ca", 44), ("Sc", 45), ("Ti", 47), ("Ti", 48),
+            ("Ti", 49), ("V", 51), ("Cr", 52), ("Cr", 53), ("Mn", 55), ("Fe", 56), ("Fe", 57), ("Co", 59), ("Ni", 60), ("Ni", 62), ("Cu", 63),
+            ("Cu", 65), ("Zn", 66), ("Zn", 68), ("Ga", 69), ("Ga", 71), ("Ge", 72), ("As", 75), ("Se", 78), ("Br", 79), ("Se", 82), ("Rb", 85),
+            ("Sr", 88), ("Y", 89), ("Zr", 90), ("Nb", 93), ("Mo", 95), ("Mo", 98), ("Ru", 101), ("Rh", 103), ("Pd", 105), ("Ag", 107),
+            ("Ag", 109), ("Cd", 111), ("Cd", 114), ("In", 115), ("Sn", 118), ("Sn", 120), ("Sb", 121), ("Te", 125), ("I", 127), ("Cs", 133),
+            ("Ba", 137), ("Ba", 138), ("La", 139), ("Ce", 140), ("Pr", 141), ("Nd", 146), ("Sm", 147), ("Eu", 153), ("Gd", 157), ("Tb", 159),
+            ("Dy", 163), ("Ho", 165), ("Er", 166), ("Tm", 169), ("Yb", 172), ("Lu", 175), ("Hf", 178), ("Ta", 181), ("W", 182), ("Re", 185),
+            ("Os", 189), ("Ir", 193), ("Pt", 195), ("Au", 197), ("Hg", 202), ("Tl", 205), ("Pb", 208), ("Bi", 209), ("Th", 232), ("U", 238)]
 ACCTIMES = ["0.159999996423721", "0.167999997735023", "0.1", "0.05", "0.25", "1", "0.0300000002607703", "2.5"]
 WIN = "D:\\Agilent\\ICPMH\\1\\DATA\\verif\\synthetic.b\\"
 PATH_STYLES = ["win", "win", "posix", "bare", "mixed"]
@@ -58,12 +72,16 @@ def qtok(j):
 class C02(Prop):
     id = "C02"
     anchored = ["src/pewlib/io/agilent.py"]
-    cases = {"quick": 300, "thorough": 30000}
-    rule = ("synthetic .b batches written with the fixture layouts: 1..5 lines, 2..6 scans, 1..4 masses, MS / MS with XAddition / MS_MS "
-            "(incl. product order != precursor order), every subset of {BatchLog.xml, BatchLog.csv, AcqMethod.xml, MSTS_XAddition.xml}, "
-            "data-file names of mixed digit widths, prefixes and .d/.D, shuffled directory listing (iterdir patched), logs with Fail/Abort/-/Skip, "
-            "repeated Pass entries, unlogged directories, logged-but-missing files, four path styles, XML entries without file name, plain files "
-            "that look like data directories, per-line CSV all/some/none (CRLF or LF, 4 footer shapes, 0..3 decimals), unreadable binaries "
+    cases = {"quick": 300, "thorough": 10000}
+    rule = ("synthetic .b batches written with the fixture layouts: 1..5 lines, 2..6 scans, 1..4 masses (one batch in twenty: up to 16 lines, "
+            "40 scans, 60 masses), MS / MS with XAddition / MS_MS (incl. product order != precursor order, transitions sharing a product or "
+            "a precursor m/z, the method file listing them in any order), every subset of {BatchLog.xml, BatchLog.csv, AcqMethod.xml, MSTS_XAddition.xml}, "
+            "data-file names of mixed digit widths, prefixes and .d/.D, numbers beyond 2**53 that differ in the low digits only (a common stamp "
+            "+ counter), independent numbers of 1..25 digits, 17..22 digits with leading zeros, several digit groups in one name, non-ASCII "
+            "letters; shuffled directory listing (iterdir patched), logs with Fail/Abort/-/Skip (first, last, before every pass, all but one), "
+            "repeated Pass entries (a line acquired three times), unlogged directories, logged-but-missing files, four path styles, XML entries without file name, plain files "
+            "that look like data directories, per-line CSV all/some/none/all but the first line/all but the last/a single one (CRLF or LF, 4 footer shapes, 0..8 decimals), "
+            "regular and irregular scan times, unreadable binaries "
             "(CSV fallback of load), bit-pattern values (NaN payloads, infinities, -0.0) or count values (exact rationals for counts/second); "
             "outside the theorems' hypotheses, compared mechanism-vs-pewlib only (counted as hypothesis_excluded): scan records whose "
             "SpectrumOffset/ByteCount leave the instrument layout (beyond the profile: clip; below the header: negative index, wrap or IndexError; "
@@ -76,7 +94,14 @@ class C02(Prop):
             "pathlib.Path or a str (collect_datafiles too), compared with the Lean entry-point models loadBinaryCall / loadCsvCall / load (image, "
             "return shape, times and scan time when full); 3 targeted batches (counts; MS/MS counts with an unreadable binary = CSV fallback; bit "
             "patterns) run the whole option grid (18 + 18 + 54 tuples); "
-            "96 targeted small batches (all 16 metadata subsets x sizes 1/2) + the minimal inputs of the two repaired defects + 17 off-hypothesis batches; "
+            "HISTORIES (18% of the generated cases + 25 targeted): two or three batches written one after the other at the SAME path and "
+            "imported in one process — an unrelated batch under the same data-file names, the same shape with other masses of equal text length "
+            "and other values (every file keeps its size), the same masses with other values, another number of masses / lines / scans, the same "
+            "files logged in the opposite order, the very same batch again through other calls, MS/MS replaced by single quad and back — with "
+            "every modification time set to one fixed instant or left alone, the caller overwriting every returned array / list / params dict "
+            "between the calls (also in half of the ordinary cases); each import of each step is compared with the Lean model and specification "
+            "of the batch as it is on disk at that call (Lean `process`, theorem `process_eq_spec`); "
+            "25 targeted batches of the name styles, MS/MS ties, log shapes, export patterns, 60 masses; 96 targeted small batches (all 16 metadata subsets x sizes 1/2) + the minimal inputs of the two repaired defects + 17 off-hypothesis batches; "
             "non-trivial = reaches a named size/order/log/metadata/CSV boundary class; distinct by canonical case hash")
     trusted = [
         "xml.etree.ElementTree, np.genfromtxt (field splitting, name validation with deletechars='', correctly rounded decimal->float64), "
@@ -88,8 +113,10 @@ class C02(Prop):
         "Python's list.sort/sorted are stable sorts (modelled by List.mergeSort); str.rfind, str.isdigit on ASCII names",
     ]
     assumptions = [
-        "data-file names are ASCII without separator and comma, and those containing digits carry pairwise distinct numbers (ties are listing-order "
-        "dependent and not generated); a data directory without any digit makes the directory scan raise (modelled, generated)",
+        "data-file names hold no separator, no comma and no digit outside ASCII (str.isdigit / int() of other Unicode digits is not modelled), and "
+        "those containing digits carry pairwise distinct numbers (ties are listing-order dependent and not generated); BatchLog.xml and "
+        "BatchLog.csv of a batch hold the same log (two logs that disagree are not a batch an instrument writes; which of them 'the batch log' "
+        "is would be left to the order of collection_methods — not generated); a data directory without any digit makes the directory scan raise (modelled, generated)",
         "result texts are at most 5 characters and never merely start with 'Pass' (the U4 column of the CSV reader truncates)",
         "CSV fields are plain decimals; element names are distinct; every data file of a batch carries the same mass table; the first CSV column is "
         "'Time [Sec]' (other header layouts are not modelled)",
@@ -100,6 +127,9 @@ class C02(Prop):
         "imported float64 values) exactly when the exact values of the batch satisfy Lean `agree` with `printSlack` (theorem `agree_transfer`; "
         "float64 division and decimal->binary conversion correctly rounded)",
         "exception classes are not compared (raised vs returned only)",
+        "histories: a history has its own directory (named by the hash of the case), so its verdict does not depend on what the worker process "
+        "imported before; what the caller does to returned objects is: overwrite arrays in place, empty the params dict, reverse and extend "
+        "the returned list (objects that refuse are left alone: the property does not demand writable results)",
         "call options: drop_names is left at its default in every call (the property does not say what an image with a kept time column or a "
         "dropped element is); an omitted option is modelled by the default of the current signature; counts_per_second=True is only called on "
         "count-valued batches (bit-pattern batches hold NaNs/infinities that the exact division of the model does not describe)",
@@ -108,26 +138,62 @@ class C02(Prop):
     ]
 
     # ------------------------------------------------------------------ generator
-    def gen_names(self, rng, n):
-        """n distinct data-directory names with distinct numbers, mixed widths/prefixes"""
+    def gen_names(self, rng, n, pool=(), style=None):
+        """n distinct data-directory names whose numbers (= all ASCII digits of the name, concatenated) are pairwise distinct;
+        `pool`: names to use first (the data directories of an earlier batch at the same path).  Styles: `classic` mixed
+        widths / prefixes / .d .D; `long` a common stamp of 13..20 digits followed by a short counter (numbers beyond 2**53,
+        differing in the low digits only); `wide` independent numbers of 1..25 digits; `long0` 17..22 digits with leading zeros; `groups` several digit groups in one
+        name (r2_10.d -> 210); `unicode` non-ASCII letters (no non-ASCII digits) in the prefix"""
+        style = style or rng.choice(["classic"] * 7 + ["long", "long0", "wide", "groups", "unicode"])
         names, nums = [], set()
+        for nm in pool:
+            if len(names) < n and digits(nm) >= 0 and digits(nm) not in nums and nm not in names:
+                names.append(nm)
+                nums.add(digits(nm))
+        stamp = "".join(rng.choice("0123456789") for _ in range(rng.randint(13, 20)))
+        stamp = rng.choice("123456789") + stamp[1:]
+        cw = rng.choice([1, 2, 4])
+        while 10 ** cw < 4 * n:   # the counter must have room for n distinct values
+            cw += 1
+        tries = 0
         while len(names) < n:
+            tries += 1
+            if tries > 50 * n + 200:   # a style that cannot deliver n distinct numbers: fall back
+                style = "wide"
             num = rng.choice([rng.randint(0, 12), rng.randint(0, 12), rng.randint(8, 130), rng.randint(90, 1100)])
-            if num in nums:
-                continue
             width = rng.choice([0, 0, 0, 2, 3, 4])
             prefix = rng.choice(["", "", "", "", "line", "s_", "B", "Z", "a"])
             ext = rng.choice([".d", ".d", ".d", ".d", ".D"])
-            nm = f"{prefix}{num:0{width}d}{ext}" if width else f"{prefix}{num}{ext}"
-            nums.add(num)
+            if style == "long":
+                nm = f"{rng.choice(['', 'line', 'L'])}{stamp}{num % 10 ** cw:0{cw}d}{ext}"
+            elif style == "wide":   # independent numbers of 1..25 digits: they differ in the HIGH digits
+                nm = f"{prefix}{rng.choice('123456789')}{''.join(rng.choice('0123456789') for _ in range(rng.choice([0, 3, 9, 12, 16, 19, 24])))}{ext}"
+            elif style == "long0":
+                nm = f"{prefix}{num:0{rng.choice([17, 19, 22])}d}{ext}"
+            elif style == "groups":
+                nm = rng.choice([f"r{rng.randint(0, 3)}_{num}{ext}", f"b{rng.randint(1, 12)}s{num:02d}{ext}", f"{num}_{rng.randint(0, 9)}{ext}",
+                                 f"s{rng.randint(0, 2)}.{num}{ext}"])
+            elif style == "unicode":
+                nm = f"{rng.choice(['µ', 'é_', 'Probe_ß', 'Ω', 'линия'])}{num:0{width}d}{ext}" if width else \
+                    f"{rng.choice(['µ', 'é_', 'Probe_ß', 'Ω', 'линия'])}{num}{ext}"
+            else:
+                nm = f"{prefix}{num:0{width}d}{ext}" if width else f"{prefix}{num}{ext}"
+            if digits(nm) in nums or nm in names:
+                continue
+            nums.add(digits(nm))
             names.append(nm)
         return names
 
-    def gen_values(self, rng, mode, R, k):
+    def gen_values(self, rng, mode, R, k, fixed_acc=None):
+        """R x k float64 bit tokens.  `fixed_acc` (accumulation times): count values whose counts per second lie in
+        [1000, 9990): every export field then has the same width (a rewritten batch keeps the size of every file)"""
         rows = []
         for r in range(R):
             row = []
             for j in range(k):
+                if fixed_acc is not None and mode == "counts":
+                    row.append(tok((1000 + rng.random() * 8990) * float(fixed_acc[j])))
+                    continue
                 if mode == "bits":
                     c = rng.random()
                     if c < 0.06:
@@ -150,7 +216,156 @@ class C02(Prop):
         return rows
 
     def generate(self, rng, tier):
+        if rng.random() < 0.18:
+            return self.gen_history(rng)
         return self.build(rng)
+
+    # ------------------------------------------------------------------ histories
+    HISTORY_KINDS = ["fresh", "fresh", "same-shape", "same-shape", "same-masses", "other-k", "other-lines", "other-scans", "same", "reordered"]
+
+    @staticmethod
+    def same_length_masses(rng, masses, msms):
+        """another mass table whose XML text has the same length, entry by entry: element names of the same length, m/z of
+        the same number of digits (the same precursor -> product shift), accumulation times of the same text length"""
+        used, out = set(), []
+        for m in masses:
+            shift = m["pro"] - m["pre"]
+            cands = [(nm, mz) for nm, mz in ISOTOPES if len(nm) == len(m["name"]) and len(str(mz)) == len(str(m["pre"]))
+                     and len(str(mz + shift)) == len(str(m["pro"])) and mz not in used and mz != m["pre"]]
+            nm, mz = rng.choice(cands) if cands else (m["name"], m["pre"])
+            used.add(mz)
+            accs = [a for a in ACCTIMES if len(a) == len(m["acctime"]) and a != m["acctime"]] or [m["acctime"]]
+            out.append({"name": nm, "pre": mz, "pro": mz + shift if msms else mz, "acctime": rng.choice(accs)})
+        if len({(m["pro"], m["pre"]) for m in out}) < len(out):
+            return [dict(m) for m in masses]
+        return out
+
+    def next_step(self, rng, prev, kind):
+        """the batch that replaces `prev` at the same path"""
+        names = [f["name"] for f in prev["files"]]
+        flags = dict(has_xml=prev["xml"] is not None, has_csv=prev["csv"] is not None, has_acq=prev["acq"] is not None,
+                     has_xadd=prev["xadd"] is not None)
+        clean = dict(odd=None, badindex=False, nodigit=False, large=False)
+        n_prev = len(names)
+        if kind == "same":          # the very same batch, imported again (by other calls)
+            c = copy.deepcopy(prev)
+            c["calls"] = self.gen_calls(rng, c["methods"], c["mode"] == "counts", 3)
+            c["methods"] = rng.choice([c["methods"], rng.sample(METHODS, rng.randint(1, 4))])
+            return c
+        if kind == "reordered":     # the same data files, acquired (logged) in the opposite order
+            c = copy.deepcopy(prev)
+            for key in ("xml", "csv"):
+                if c[key] is not None:
+                    c[key] = list(reversed(c[key]))
+            if c["csv"] is not None:
+                c["csv"] = [{**r, "id": i + 1} for i, r in enumerate(c["csv"])]
+            if c["acq"] is not None:
+                ids = [x["id"] for x in c["acq"]["samples"] if x["id"] is not None]
+                top = max(ids) if ids else 0
+                c["acq"]["samples"] = [{**x, "id": None if x["id"] is None else top - x["id"]} for x in c["acq"]["samples"]]
+            rng.shuffle(c["listing"])
+            c["calls"] = self.gen_calls(rng, c["methods"], c["mode"] == "counts", 2)
+            return c
+        if kind in ("same-shape", "same-masses"):
+            # the same lines, scans, number of masses, metadata files: other values, times, acquisition order — and, for
+            # same-shape, another mass table of the same text length (every file keeps its size)
+            masses = prev["masses"] if kind == "same-masses" else self.same_length_masses(rng, prev["masses"], prev["msms"])
+            return self.build(rng, n=prev.get("n_lines") or max(1, n_prev), n_extra=prev.get("n_extra", 0), R=prev["R"], masses=masses, msms=prev["msms"], mode=prev["mode"],
+                              names_pool=names, scan_start=prev["scan_start"], fixed_width=True, dirty=False, missing=False, path_style="win",
+                              decimals=prev["decimals"], csv_mode="all" if all(f["csv"] is not None for f in prev["files"]) else "some",
+                              time_style="regular", methods=prev["methods"], **flags, **clean)
+        if kind == "other-k":       # another number of masses: the width of every profile record changes
+            k = rng.choice([x for x in (1, 2, 3, 4, 5) if x != prev["k"]])
+            return self.build(rng, n=max(1, n_prev), R=prev["R"], k=k, names_pool=names, scan_start=prev["scan_start"], **flags, **clean)
+        if kind == "other-lines":   # fewer or more lines under the same names
+            n = rng.choice([x for x in (1, 2, 3, 4, 6) if x != n_prev])
+            return self.build(rng, n=n, R=prev["R"], k=prev["k"], names_pool=names, **clean)
+        if kind == "other-scans":
+            R = rng.choice([x for x in (2, 3, 4, 5, 7) if x != prev["R"]])
+            return self.build(rng, n=max(1, n_prev), R=R, k=prev["k"], names_pool=names, **clean)
+        return self.build(rng, names_pool=names, **clean)   # fresh: whatever batch comes next, under the same names where it can
+
+    def gen_history(self, rng, kinds=None, stamps=None, edit=None, first=None):
+        """two or three batches written one after the other at the same path and imported in one process"""
+        kinds = kinds or [rng.choice(self.HISTORY_KINDS) for _ in range(rng.choice([1, 1, 2]))]
+        sized = any(kd in ("same-shape", "same-masses") for kd in kinds)
+        first = first or (self.build(rng, fixed_width=True, dirty=False, missing=False, odd=None, badindex=False, nodigit=False, large=False,
+                                     time_style="regular", path_style="win", csv_mode=rng.choice(["all", "all", "none"]), n=rng.choice([1, 2, 3]))
+                          if sized else self.build(rng, odd=None, badindex=False, nodigit=False, large=False))
+        steps = [first]
+        for kd in kinds:
+            steps.append(self.next_step(rng, steps[-1], kd))
+        stamps = stamps or [rng.choice(["preserved", "preserved", "fresh"]) for _ in steps]
+        return {"kind": "history", "steps": steps, "kinds": list(kinds), "stamps": stamps,
+                "edit": (rng.random() < 0.6 or "same" in kinds) if edit is None else edit}
+
+    def class_cases(self):
+        """one or two batches of every name style, MS/MS tie, log shape, export-presence pattern and time style, so that
+        reaching those classes does not depend on the seed"""
+        import random
+        i = 0
+        common = dict(odd=None, badindex=False, nodigit=False, large=False, missing=False)
+        for style in ("long", "long0", "wide", "groups", "unicode"):
+            for methods, dirty in ((["alphabetical"], False), (["batch_csv", "batch_xml", "alphabetical"], True)):
+                rng = random.Random(f"C02-class-{i}")
+                i += 1
+                yield self.build(rng, n=4, k=1 + i % 2, R=2, name_style=style, methods=methods, dirty=dirty, has_xml=dirty, has_csv=dirty,
+                                 has_acq=False, **common)
+        for tie in ("product", "precursor"):
+            for methods in (["batch_xml"], ["acq_method_xml", "alphabetical"]):
+                rng = random.Random(f"C02-class-{i}")
+                i += 1
+                c = self.build(rng, n=2, k=3, R=3, mode="counts", msms=True, tie=tie, has_xml=True, has_acq=True, dirty=False,
+                               csv_mode="all", methods=methods, **common)
+                c["use_acq"] = True
+                c["calls"] = [self.call("load_csv", methods=methods, full=True), self.call("load_csv", methods=methods, use_acq=False),
+                              self.call("load_binary", methods=methods, cps=True)]
+                yield c
+        for log_style in ("fail-first", "fail-last", "triple", "many-fail"):
+            rng = random.Random(f"C02-class-{i}")
+            i += 1
+            yield self.build(rng, n=3, k=2, R=2, dirty=True, log_style=log_style, has_xml=True, has_csv=True,
+                             methods=[["batch_xml", "batch_csv"], ["batch_csv", "batch_xml"]][i % 2], **common)
+        for csv_mode in ("first-missing", "last-missing", "one-present", "none"):
+            rng = random.Random(f"C02-class-{i}")
+            i += 1
+            yield self.build(rng, n=3, k=2, R=3, mode="counts", dirty=False, has_xml=True, csv_mode=csv_mode, methods=["batch_xml"],
+                             time_style="irregular", decimals=[4, 6, 8, 0][i % 4], **common)
+        rng = random.Random(f"C02-class-{i}")
+        yield self.build(rng, n=2, k=60, R=7, mode="counts", large=True, dirty=False, has_xml=True, csv_mode="all", methods=["batch_xml"],
+                         odd=None, badindex=False, nodigit=False, missing=False)
+
+    def history_cases(self):
+        """every kind of rewrite, with the modification times preserved and not, with and without the caller's edits"""
+        import random
+        i = 0
+        for kd in ["fresh", "same-shape", "same-masses", "other-k", "other-lines", "other-scans", "same", "reordered"]:
+            for stamp, edit in (("preserved", False), ("fresh", True)):
+                rng = random.Random(f"C02-history-{i}")
+                i += 1
+                yield self.gen_history(rng, kinds=[kd], stamps=[stamp, stamp], edit=edit)
+        for kinds in (["same-shape", "same-shape"], ["other-k", "same"], ["same", "fresh"], ["reordered", "other-lines"]):
+            rng = random.Random(f"C02-history-{i}")
+            i += 1
+            yield self.gen_history(rng, kinds=kinds, stamps=["preserved"] * 3, edit=True)
+        # every file of the batch rewritten with other content of the same size and the same modification time (all four
+        # optional metadata files present; single quad and MS/MS; every collection method first in turn)
+        for j, (msms, methods) in enumerate(((False, ["batch_xml", "batch_csv"]), (True, ["batch_csv", "batch_xml"]),
+                                             (True, ["acq_method_xml", "alphabetical"]), (False, ["alphabetical"]))):
+            rng = random.Random(f"C02-history-sized-{j}")
+            first = self.build(rng, n=2 + j % 2, k=2 + j % 2, R=3, mode="counts", msms=msms, has_xadd=True, has_xml=True, has_csv=True,
+                               has_acq=True, fixed_width=True, dirty=False, missing=False, odd=None, badindex=False, nodigit=False,
+                               large=False, time_style="regular", path_style="win", csv_mode="all", methods=methods, n_extra=0,
+                               name_style="classic", decimals=2)
+            yield self.gen_history(rng, kinds=["same-shape", "same-shape"], stamps=["preserved"] * 3, edit=bool(j % 2), first=first)
+        # an MS/MS batch replaced by a single-quad one and back, 8900-style tables (<Mass> holds the index)
+        rng = random.Random("C02-history-msms")
+        a = self.build(rng, n=2, k=2, R=3, mode="counts", msms=True, has_xml=True, has_acq=True, dirty=False, missing=False, odd=None,
+                       badindex=False, nodigit=False, large=False, csv_mode="all", methods=["batch_xml"])
+        b = self.build(rng, n=2, k=2, R=3, mode="counts", msms=False, has_xadd=False, has_xml=True, has_acq=True, dirty=False, missing=False,
+                       odd=None, badindex=False, nodigit=False, large=False, csv_mode="all", methods=["batch_xml"],
+                       names_pool=[f["name"] for f in a["files"]])
+        yield {"kind": "history", "steps": [a, b, copy.deepcopy(a)], "kinds": ["scan-type"], "stamps": ["preserved"] * 3, "edit": True}
 
     @staticmethod
     def call(fn, methods=None, cps=None, use_acq=None, full=None, path="Path"):
@@ -208,30 +423,58 @@ class C02(Prop):
             yield c
 
     def build(self, rng, **force):
-        """one abstract batch; `force` pins any of n, R, k, mode, msms, has_xadd, has_xml, has_csv, has_acq, dirty, methods"""
+        """one abstract batch; `force` pins any of n, R, k, mode, msms, has_xadd, has_xml, has_csv, has_acq, dirty, methods,
+        masses (the mass table), names_pool (data-directory names to use first), name_style, scan_start, fixed_width (every
+        export field and time of one width), tie (MS/MS transitions sharing a product / a precursor), log_style, time_style, large"""
         pick = lambda key, default: force[key] if key in force else default
         n = pick("n", rng.choice([1, 2, 2, 3, 3, 4, 5]))
         R = pick("R", rng.choice([2, 2, 3, 4, 5, 6]))
         k = pick("k", rng.choice([1, 1, 2, 2, 3, 3, 4]))
+        if pick("large", rng.random() < 0.05):  # many masses / scans / lines (the product bounded: the case travels as JSON)
+            k = pick("k", rng.choice([5, 8, 13, 30, 60]))
+            R = pick("R", rng.choice([7, 12, 40]))
+            n = pick("n", max(1, min(16, 2400 // (k * R))))
         mode = pick("mode", rng.choice(["bits", "counts", "counts"]))
         msms = pick("msms", rng.random() < 0.4)
         has_xadd = msms or pick("has_xadd", rng.random() < 0.5)
-        elems = sorted(rng.sample(ELEMENTS, k), key=lambda e: e[1])
-        masses = []
-        for i, (nm, mz) in enumerate(elems):
-            pre, pro = mz, mz
-            if msms:
-                pro = mz + rng.choice([0, 0, 16, 16, 32, 48, 64, 100])
-            masses.append({"name": nm, "pre": pre, "pro": pro, "acctime": rng.choice(ACCTIMES)})
-        if msms and k >= 2 and rng.random() < 0.4:  # product order differs from precursor order
-            masses[0]["pro"] = masses[-1]["pre"] + rng.choice([16, 100])
+        tie = pick("tie", rng.choice([None, None, None, "product", "precursor"]) if msms and k >= 2 else None)
+        if "masses" in force:
+            masses = [dict(m) for m in force["masses"]]
+            k = len(masses)
+        else:
+            elems = sorted(rng.sample(ELEMENTS if k <= 4 and rng.random() < 0.7 else ISOTOPES, k), key=lambda e: e[1])
+            masses = []
+            for i, (nm, mz) in enumerate(elems):
+                pre, pro = mz, mz
+                if msms:
+                    pro = mz + rng.choice([0, 0, 16, 16, 32, 48, 64, 100])
+                masses.append({"name": nm, "pre": pre, "pro": pro, "acctime": rng.choice(ACCTIMES)})
+            if msms and k >= 2 and rng.random() < 0.4:  # product order differs from precursor order
+                masses[0]["pro"] = masses[-1]["pre"] + rng.choice([16, 100])
+            if tie and k >= 2:
+                i, j = rng.sample(range(k), 2)
+                if tie == "product":      # two transitions measured at the same product m/z (S 32->48 beside Ti 48->48)
+                    masses[j]["pro"] = masses[i]["pro"] = max(masses[i]["pro"], masses[j]["pro"], masses[i]["pre"], masses[j]["pre"])
+                else:                     # two products of one precursor (S 32->32 beside S 32->48)
+                    masses[j]["name"], masses[j]["pre"] = masses[i]["name"], masses[i]["pre"]
+                    masses[j]["pro"] = masses[i]["pro"] + rng.choice([16, 17, 32])
         if msms:  # method order: ascending (product, precursor)
             masses.sort(key=lambda m: (m["pro"], m["pre"]))
-            if len({(m["pro"], m["pre"]) for m in masses}) < k:
+            if len({(m["pro"], m["pre"]) for m in masses}) < k or any(m["pro"] < 0 for m in masses):
                 msms = False
                 for m in masses:
                     m["pro"] = m["pre"]
-                masses.sort(key=lambda m: m["pre"])
+        if not msms:
+            for m in masses:
+                m["pro"] = m["pre"]
+            masses.sort(key=lambda m: m["pre"])
+            if len({m["pre"] for m in masses}) < k:  # a single quad measures every m/z once
+                seen, kept = set(), []
+                for m in masses:
+                    if m["pre"] not in seen:
+                        seen.add(m["pre"])
+                        kept.append(m)
+                masses, k = kept, len(kept)
         index_mass = has_xadd and rng.random() < 0.6  # 8900 style: <Mass> holds the index, XAddition the m/z
         xspecific = [{"name": m["name"], "mass": (i + 1) if index_mass else m["pre"], "acctime": m["acctime"]}
                      for i, m in enumerate(masses)]
@@ -244,7 +487,7 @@ class C02(Prop):
                 rows.insert(rng.randint(0, len(rows)), {"index": rng.choice([0, k + 1, k + 7]), "precursor": 999, "product": 999})
             xadd = {"scan_type": "MS_MS" if msms else "SingleQuad", "rows": rows}
 
-        names = self.gen_names(rng, n + rng.choice([0, 0, 1, 2]))
+        names = self.gen_names(rng, n + pick("n_extra", rng.choice([0, 0, 1, 2])), pool=pick("names_pool", ()), style=pick("name_style", None))
         acquired, extra = names[:n], names[n:]
         rng.shuffle(acquired)  # acquisition order
         # ---- log: the final successful acquisition of each line, with failures and re-acquisitions before it
@@ -253,21 +496,42 @@ class C02(Prop):
         for nm in acquired:
             log.append({"result": "Pass", "name": nm})
         failed_only = []
+        bad = lambda: rng.choice(["Fail", "Fail", "Abort", "-", "Skip"])
         if dirty:
-            for _ in range(rng.randint(1, 3)):
+            log_style = pick("log_style", rng.choice(["random"] * 4 + ["fail-first", "fail-last", "triple", "many-fail"]))
+            if log_style == "fail-first":    # the log opens with a failed acquisition
+                log.insert(0, {"result": bad(), "name": rng.choice(acquired + extra)})
+            elif log_style == "fail-last":   # ... closes with one (of a line that passed before, or of a file never repeated)
+                log.append({"result": bad(), "name": rng.choice(acquired + extra)})
+            elif log_style == "triple":      # one line acquired three times (and failed once in between)
+                nm = rng.choice(acquired)
+                last = max(i for i, e in enumerate(log) if e["name"] == nm)
+                for res in ("Pass", bad(), "Pass"):
+                    log.insert(rng.randint(0, last), {"result": res, "name": nm})
+                    last += 1
+            elif log_style == "many-fail":   # every line failed before it passed, every other file failed for good
+                for nm in acquired:
+                    first = min(i for i, e in enumerate(log) if e["name"] == nm)
+                    log.insert(rng.randint(0, first), {"result": bad(), "name": nm})
+                for nm in extra:
+                    log.insert(rng.randint(0, len(log)), {"result": bad(), "name": nm})
+            for _ in range(rng.randint(1, 3) if log_style == "random" else rng.randint(0, 1)):
                 c = rng.random()
                 pos = rng.randint(0, len(log))
                 if c < 0.4:  # a failed attempt of a line that is (re)acquired elsewhere in the log
-                    log.insert(pos, {"result": rng.choice(["Fail", "Fail", "Abort", "-", "Skip"]), "name": rng.choice(acquired)})
+                    log.insert(pos, {"result": bad(), "name": rng.choice(acquired)})
                 elif c < 0.75:  # an earlier passed attempt of a line: only the last Pass entry counts
                     log.insert(pos, {"result": "Pass", "name": rng.choice(acquired)})
                 elif extra:  # a failed acquisition of a file that was never repeated
                     nm = rng.choice(extra)
                     failed_only.append(nm)
                     log.insert(pos, {"result": "Fail", "name": nm})
-        style = rng.choice(PATH_STYLES)
+            # the acquisition order = the last Pass entry of each line
+            acquired = [nm for i, nm in ((i, e["name"]) for i, e in enumerate(log) if e["result"] == "Pass")
+                        if all(f["name"] != nm or f["result"] != "Pass" for f in log[i + 1:])]
+        style = pick("path_style", rng.choice(PATH_STYLES))
         for e in log:
-            e["file"] = styled(e.pop("name"), style if rng.random() < 0.85 else rng.choice(PATH_STYLES))
+            e["file"] = styled(e.pop("name"), style if ("path_style" in force or rng.random() < 0.85) else rng.choice(PATH_STYLES))
         # the order the log finally specifies = last Pass occurrence of each name (ground truth, recomputed by the Lean spec)
         on_disk = list(acquired)
         for nm in extra:  # unlogged or failed-only directories may or may not have been left on disk
@@ -288,7 +552,7 @@ class C02(Prop):
         if has_acq:
             # the sample list: the planned acquisitions, SampleID increasing in the planned order
             planned = list(acquired) if not dirty or rng.random() < 0.5 else rng.sample(acquired, len(acquired))
-            ids = sorted(rng.sample(range(0, 40), len(planned)))
+            ids = sorted(rng.sample(range(10 if pick("fixed_width", False) else 0, 40), len(planned)))
             samples = [{"id": i, "file": nm} for i, nm in zip(ids, planned)]
             if rng.random() < 0.08:
                 samples.append({"id": None, "file": None})
@@ -300,31 +564,52 @@ class C02(Prop):
         # ---- data files
         hdr = 68
         bc = 28 * k
-        decimals = rng.choice([2, 2, 2, 1, 3, 0])
-        csv_mode = pick("csv_mode", rng.choice(["all", "all", "some", "none"]))
-        eol = rng.choice(["\r", "\r", ""])
+        fixed = bool(pick("fixed_width", False))
+        decimals = pick("decimals", rng.choice([2, 2, 2, 1, 3, 0, 4, 6, 8]))
+        # which lines have their per-line export: all / each with probability 0.6 / none / all but the first acquired line /
+        # all but the last acquired line / a single one
+        csv_mode = pick("csv_mode", rng.choice(["all", "all", "all", "some", "some", "none", "first-missing", "last-missing", "one-present"]))
+        only = rng.choice(on_disk) if on_disk else None
+        eol = "\r" if fixed else rng.choice(["\r", "\r", ""])
         colnames = [f"{m['name']}{m['pre']} -> {m['pro']}" if msms else f"{m['name']}{m['pre']}" for m in masses]
         files = []
         bad_binary = rng.random() < 0.1
+        time_style = pick("time_style", rng.choice(["regular", "regular", "regular", "irregular"]))
         for fi, nm in enumerate(on_disk):
-            vals = self.gen_values(rng, mode, R, k)
-            t0 = rng.randint(1, 200)
-            dt = rng.randint(20, 400)
-            ticks = [t0 + r * dt + rng.randint(0, 3) for r in range(R)]
+            vals = self.gen_values(rng, mode, R, k, fixed_acc=[m["acctime"] for m in masses] if fixed else None)
+            if fixed:      # 10 s <= every time < 100 s: one text width
+                t0, dt = rng.randint(700, 900), rng.randint(20, 400)
+                ticks = [t0 + r * dt + rng.randint(0, 3) for r in range(R)]
+                if ticks[-1] >= 6800:
+                    ticks = [700 + r * (6000 // R) + rng.randint(0, 3) for r in range(R)]
+            elif time_style == "irregular":  # sampling intervals that differ from scan to scan and from line to line
+                ticks, t = [], rng.randint(1, 5000)
+                for r in range(R):
+                    ticks.append(t)
+                    t += rng.choice([1, rng.randint(1, 40), rng.randint(1, 3000)])
+            else:
+                t0 = rng.randint(1, 200)
+                dt = rng.randint(20, 400)
+                ticks = [t0 + r * dt + rng.randint(0, 3) for r in range(R)]
             scans = [{"off": hdr + r * bc, "bc": bc, "ticks": ticks[r]} for r in range(R)]
             f = {"name": nm, "binary": True, "scans": scans, "vals": vals, "csv": None}
-            present = csv_mode == "all" or (csv_mode == "some" and rng.random() < 0.6)
+            present = {"all": True, "some": rng.random() < 0.6, "none": False, "first-missing": nm != acquired[0],
+                       "last-missing": nm != acquired[-1], "one-present": nm == only}[csv_mode]
             if present:
                 if mode == "counts":
                     src = [[f64(t) / float(masses[j]["acctime"]) for j, t in enumerate(row)] for row in vals]
+                elif fixed:
+                    src = [[1000 + rng.random() * 8990 for _ in range(k)] for _ in range(R)]
                 else:  # independent finite values
                     src = [[rng.random() * 10 ** rng.randint(0, 5) for _ in range(k)] for _ in range(R)]
                 rows = [[f"{ticks[r] / TICK * 60:.4f}"] + [f"{v:.{decimals}f}" for v in src[r]] for r in range(R)]
                 pre = [WIN + nm, "Intensity Vs Time,CPS", f"Acquired      : 16/11/2020 1:08:48 PM using Batch synthetic.b"]
-                if rng.random() < 0.15:
+                if rng.random() < 0.15 and not fixed:
                     pre = pre[: rng.randint(0, 2)]
                 foot = rng.choice([["", "", "          Printed:16/11/2020 1:09:06 PM"], [], [""],
                                    ["", "Printed," * (k + 2)]])
+                if fixed:
+                    foot = ["", "", "          Printed:16/11/2020 1:09:06 PM"]
                 f["csv"] = {"pre": pre, "header": ["Time [Sec]"] + colnames, "rows": rows, "foot": foot, "eol": eol}
             files.append(f)
         if bad_binary and files:
@@ -381,7 +666,11 @@ class C02(Prop):
                 "xspecific": xspecific, "xadd": xadd, "listing": listing,
                 "xml": xml_entries if has_xml else None, "csv": csv_rows if has_csv else None, "acq": acq,
                 "files": files, "methods": nm_methods, "use_acq": rng.random() < 0.7, "cps": rng.random() < 0.5,
-                "scan_start": rng.choice([208, 208, 92, 160, 333]), "seed": rng.getrandbits(32)}
+                "scan_start": pick("scan_start", rng.choice([208, 208, 92, 160, 333])), "seed": rng.getrandbits(32),
+                # what the generator knows (not read by evaluate): the mass table it drew, for a later batch at the same path
+                "masses": masses, "n_lines": n, "n_extra": len(extra),
+                # the caller changes every returned array / list / params dict in place before the next call
+                "edit": rng.random() < 0.5}
         # the entry points called the way callers do: options given or left to their defaults (drawn last: the batch above
         # is the one the same PRNG produced before this class existed)
         case["calls"] = self.gen_calls(rng, nm_methods, mode == "counts", pick("n_calls", 3))
@@ -454,6 +743,8 @@ class C02(Prop):
         yield self.crossing_case()
         yield from self.odd_cases()
         yield from self.grid_cases()
+        yield from self.history_cases()
+        yield from self.class_cases()
         # every subset of the optional metadata files x smallest sizes (1 and 2 lines / masses, 2 scans), MS and MS/MS
         i = 0
         for has_xml, has_csv, has_acq, has_xadd in itertools.product([False, True], repeat=4):
@@ -605,13 +896,49 @@ class C02(Prop):
                 "times": [[qtok(t) for t in row] for row in res["times"]]}
 
     @staticmethod
-    def impl_image(call):
+    def caller_edits(res):
+        """what a caller may do with what an entry point handed over, between two calls: every returned array is overwritten in
+        place, the params dict is emptied, a returned list is reversed and extended.  (The property speaks of what each import
+        returns; an import that hands out state it keeps — a memoised result, a cached table — serves the edited object to the
+        next call.)  Read-only or otherwise uneditable objects are left alone."""
+        def spoil(a):
+            try:
+                if isinstance(a, np.ndarray):
+                    if a.dtype.names:
+                        for n in a.dtype.names:
+                            a[n] = -7.5
+                    else:
+                        a[...] = -7.5
+                elif isinstance(a, dict):
+                    for v in list(a.values()):
+                        spoil(v)
+                    a.clear()
+                elif isinstance(a, list):
+                    a.reverse()
+                    a.append(pathlib.Path("/nonexistent/edited-by-caller.d"))
+                elif isinstance(a, tuple):
+                    for v in a:
+                        spoil(v)
+            except Exception:
+                pass
+        spoil(res)
+
+    @staticmethod
+    def impl_image(call, edit=False):
         try:
             with warnings.catch_warnings():
                 warnings.simplefilter("ignore")
                 res = call()
         except Exception as e:
             return {"raises": "any", "class": type(e).__name__}, None
+        try:
+            return C02._impl_image(res)
+        finally:
+            if edit:
+                C02.caller_edits(res)
+
+    @staticmethod
+    def _impl_image(res):
         if not (isinstance(res, tuple) and len(res) == 2 and isinstance(res[0], np.ndarray) and res[0].dtype.names
                 and res[0].ndim == 2 and isinstance(res[1], dict)):
             return {"bad-return": type(res).__name__}, None  # `full=True` was passed: (structured 2-d array, dict) is expected
@@ -619,7 +946,8 @@ class C02(Prop):
         names = list(data.dtype.names)
         img = [[[tok(v) for v in data[n][line]] for n in names] for line in range(data.shape[0])]
         times = [[tok(v) for v in row] for row in params["times"]] if "times" in params else None
-        return {"names": names, "img": img, "times": times}, params.get("scantime")
+        st = params.get("scantime")
+        return {"names": names, "img": img, "times": times}, (None if st is None else float(st))
 
     @staticmethod
     def effective_calls(case):
@@ -643,7 +971,7 @@ class C02(Prop):
         return out
 
     @staticmethod
-    def impl_call(agilent, b, d):
+    def impl_call(agilent, b, d, edit=False):
         """one call of a pewlib entry point with exactly the arguments the descriptor names -> (canonical return value, scantime)"""
         path = str(b) if d["path"] == "str" else b
         args = (path,) if d["methods"] is None else (path, list(d["methods"]))
@@ -654,6 +982,14 @@ class C02(Prop):
                 res = getattr(agilent, d["fn"])(*args, **kw)
         except Exception as e:
             return {"raises": "any", "class": type(e).__name__}, None
+        try:
+            return C02._impl_call(b, d, res)
+        finally:
+            if edit:
+                C02.caller_edits(res)
+
+    @staticmethod
+    def _impl_call(b, d, res):
         if d["fn"] == "collect_datafiles":
             bad = [str(p) for p in res if pathlib.Path(p).parent != b]
             return ({"bad": "path outside batch " + bad[0]} if bad else [pathlib.Path(p).name for p in res]), None
@@ -668,7 +1004,8 @@ class C02(Prop):
                "params": None}
         if params is not None:
             out["params"] = {"times": [[tok(v) for v in row] for row in params["times"]] if "times" in params else None}
-            return out, params.get("scantime")
+            st = params.get("scantime")
+            return out, (None if st is None else float(st))
         return out, None
 
     @staticmethod
@@ -734,16 +1071,117 @@ class C02(Prop):
 
     # ------------------------------------------------------------------ evaluation
     def evaluate(self, case, ctx):
+        if case.get("kind") == "history":
+            return self.evaluate_history(case, ctx)
+        r = self.evaluate_batch(case, ctx, ctx.tmpdir(), edit=bool(case.get("edit")))
+        if r.get("excluded"):
+            return outcome({"excluded": True}, {"excluded": True}, {"excluded": True}, undetermined=True, hyp=False, features=r["features"])
+        return outcome(r["impl"], r["model"], r["spec"], spec_ok=r["spec_ok"], model_ok=r["model_ok"], hyp=r["hyp"], features=r["features"])
+
+    STAMP = 1_600_000_000  # the modification time given to everything under a batch whose rewrite "preserves" the times
+
+    @staticmethod
+    def tree(b):
+        """relative path -> (size, mtime_ns, sha1) of every regular file under b"""
+        out = {}
+        for p in sorted(b.rglob("*")):
+            if p.is_file():
+                st = p.stat()
+                out[str(p.relative_to(b))] = (st.st_size, st.st_mtime_ns, hashlib.sha1(p.read_bytes()).hexdigest())
+        return out
+
+    def evaluate_history(self, case, ctx):
+        """several imports in ONE process that reuse paths: the batch directory is rewritten between the steps (each step a
+        whole abstract batch), optionally with every modification time set to one fixed instant, the caller editing what the
+        calls returned; every import of every step is judged against the Lean model / specification of the batch as it is on
+        disk at that call.  The directory is private to the case (named by its hash): the verdict does not depend on what the
+        process imported before."""
+        steps = case["steps"]
+        if not steps or any(st.get("kind") != "batch" for st in steps):
+            raise core.InternalError("history: steps must be batches")
+        key = hashlib.sha1(json.dumps(case, sort_keys=True, default=str).encode()).hexdigest()[:12]
+        root = ctx.tmpdir() / ("h" + key)
+        root.mkdir()
+        stamps = list(case.get("stamps") or [])
+        feats = {f"history:steps{min(len(steps), 3)}{'+' if len(steps) > 3 else ''}"}
+        impl, model, spec = [], [], []
+        spec_ok = model_ok = hyp = True
+        before = None
+        for i, st in enumerate(steps):
+            b = root / "synthetic.b"
+            if b.exists():
+                shutil.rmtree(b)
+            keep = i < len(stamps) and stamps[i] == "preserved"
+
+            def after_write(bdir, keep=keep):
+                if keep:
+                    for p in sorted(bdir.rglob("*"), reverse=True):
+                        os.utime(p, ns=(self.STAMP * 10 ** 9, self.STAMP * 10 ** 9))
+                    os.utime(bdir, ns=(self.STAMP * 10 ** 9, self.STAMP * 10 ** 9))
+
+            r = self.evaluate_batch(st, ctx, root, edit=bool(case.get("edit")), after_write=after_write)
+            if r.get("excluded"):
+                return outcome({"excluded": True}, {"excluded": True}, {"excluded": True}, undetermined=True, hyp=False, features=r["features"])
+            now = r["tree"]
+            if before is not None:
+                same_path = [p for p in now if p in before]
+                changed = [p for p in same_path if now[p][2] != before[p][2]]
+                if changed:
+                    feats.add("history:path-reused+content-changed")
+                for p in changed:
+                    leaf = p.rsplit("/", 1)[-1]
+                    leaf = "line.csv" if leaf.endswith(".csv") and leaf != "BatchLog.csv" else leaf
+                    if now[p][1] == before[p][1]:
+                        feats.add("history:same-mtime:" + leaf)
+                        if now[p][0] == before[p][0]:
+                            feats.add("history:same-mtime+size:" + leaf)
+                    if now[p][0] == before[p][0]:
+                        feats.add("history:same-size:" + leaf)
+                if not changed and same_path:
+                    feats.add("history:same-batch-again")
+                prev = steps[i - 1]
+                if st["k"] != prev["k"]:
+                    feats.add("history:other-number-of-masses")
+                if len(st["files"]) != len(prev["files"]):
+                    feats.add("history:other-line-count")
+                if st["R"] != prev["R"]:
+                    feats.add("history:other-scan-count")
+                if [m["name"] for m in st["xspecific"]] != [m["name"] for m in prev["xspecific"]] and st["k"] == prev["k"]:
+                    feats.add("history:other-masses")
+                if [m["acctime"] for m in st["xspecific"]] != [m["acctime"] for m in prev["xspecific"]] and st["k"] == prev["k"]:
+                    feats.add("history:other-acctimes")
+                if st["msms"] != prev["msms"]:
+                    feats.add("history:other-scan-type")
+                a, c = r["spec"]["collect"].get("methods"), prev_collect
+                if isinstance(a, list) and isinstance(c, list) and sorted(a) == sorted(c) and a != c:
+                    feats.add("history:other-acquisition-order")
+            before, prev_collect = now, r["spec"]["collect"].get("methods")
+            impl.append(r["impl"])
+            model.append(r["model"])
+            spec.append(r["spec"])
+            spec_ok, model_ok, hyp = spec_ok and r["spec_ok"], model_ok and r["model_ok"], hyp and r["hyp"]
+            feats |= {f for f in r["features"] if not f.startswith("call:")}
+        if any(x == "preserved" for x in stamps[1:len(steps)]):
+            feats.add("history:mtime-preserved")
+        if case.get("edit"):
+            feats.add("history:caller-edits")
+        for kd in case.get("kinds") or []:
+            feats.add("history:" + kd)
+        return outcome({"steps": impl}, {"steps": model}, {"steps": spec}, spec_ok=spec_ok, model_ok=model_ok, hyp=hyp, features=feats)
+
+    def evaluate_batch(self, case, ctx, root, edit=False, after_write=None):
+        """one batch written under `root` and imported through every entry point -> impl / model / spec with the verdicts"""
         from pewlib.io import agilent
 
         # a plain FILE carrying the name of a data file that a log / the method file refers to is not a batch any
         # instrument writes (outside the quantifier); the model does not describe it (a shrunk or hand-made case may)
         referenced = json.dumps([case.get("xml"), case.get("csv"), case.get("acq")])
         if any((not e["dir"]) and e["name"].lower().endswith(".d") and e["name"] in referenced for e in case["listing"]):
-            return outcome({"excluded": True}, {"excluded": True}, {"excluded": True}, undetermined=True, hyp=False,
-                           features=["excluded:plain-file-named-like-a-logged-data-file"])
-        root = ctx.tmpdir()
+            return {"excluded": True, "features": ["excluded:plain-file-named-like-a-logged-data-file"]}
         b = self.write_batch(case, root)
+        if after_write is not None:
+            after_write(b)
+        tree = self.tree(b) if after_write is not None else None
         order = [e["name"] for e in case["listing"]]
         rational = case["mode"] == "counts"
         cps = bool(case["cps"] and rational)
@@ -770,23 +1208,25 @@ class C02(Prop):
                         dfs = agilent.collect_datafiles(b, list(ms))
                     bad = [str(d) for d in dfs if d.parent != b]
                     coll[key] = {"bad": "path outside batch " + bad[0]} if bad else [d.name for d in dfs]
+                    if edit:
+                        self.caller_edits(dfs)
                 except Exception as e:
                     coll[key] = {"raises": "any"}
             impl["collect"] = coll
-            impl["binary"], st["binary"] = self.impl_image(lambda: agilent.load_binary(b, list(methods), counts_per_second=False, full=True))
+            impl["binary"], st["binary"] = self.impl_image(lambda: agilent.load_binary(b, list(methods), counts_per_second=False, full=True), edit)
             if rational:
-                impl["cps"], st["cps"] = self.impl_image(lambda: agilent.load_binary(b, list(methods), counts_per_second=cps, full=True))
+                impl["cps"], st["cps"] = self.impl_image(lambda: agilent.load_binary(b, list(methods), counts_per_second=cps, full=True), edit)
                 if cps:
                     on, _ = impl["cps"], None
                 else:
-                    on, _ = self.impl_image(lambda: agilent.load_binary(b, list(methods), counts_per_second=True, full=True))
+                    on, _ = self.impl_image(lambda: agilent.load_binary(b, list(methods), counts_per_second=True, full=True), edit)
             else:
                 impl["cps"], on = None, None
-            impl["csv"], st["csv"] = self.impl_image(lambda: agilent.load_csv(b, list(methods), use_acq_for_names=case["use_acq"], full=True))
+            impl["csv"], st["csv"] = self.impl_image(lambda: agilent.load_csv(b, list(methods), use_acq_for_names=case["use_acq"], full=True), edit)
             impl["load"], st["load"] = self.impl_image(lambda: agilent.load(b, list(methods), use_acq_for_names=case["use_acq"],
-                                                                            counts_per_second=cps, full=True))
+                                                                            counts_per_second=cps, full=True), edit)
             calls = self.effective_calls(case)
-            done = [self.impl_call(agilent, b, d) for d in calls]
+            done = [self.impl_call(agilent, b, d, edit) for d in calls]
             impl["calls"], call_st = [r for r, _ in done], [t for _, t in done]
         finally:
             pathlib.Path.iterdir = orig_iterdir
@@ -862,8 +1302,10 @@ class C02(Prop):
         if missing_csv and impl["csv"] is not None and "raises" not in impl["csv"]:
             feats.add("scantime-not-compared:blank-line")
         feats |= self.call_features(calls, rep)
-        return outcome(impl, sides["model"], sides["spec"], spec_ok=ok("spec"), model_ok=ok("model"),
-                       hyp=bool(hyp_layout and hyp_csv), features=feats)
+        if edit and feats:
+            feats.add("caller-edits-between-calls")
+        return {"impl": impl, "model": sides["model"], "spec": sides["spec"], "spec_ok": ok("spec"), "model_ok": ok("model"),
+                "hyp": bool(hyp_layout and hyp_csv), "features": feats, "tree": tree}
 
     @staticmethod
     def layout_class(case):
@@ -911,8 +1353,35 @@ class C02(Prop):
         feats = set()
         names = [f["name"] for f in case["files"]]
         feats.add(f"lines{min(len(names), 4)}{'+' if len(names) > 4 else ''}")
-        feats.add(f"k{case['k']}")
-        feats.add(f"scans{case['R']}")
+        feats.add(f"k{case['k']}" if case["k"] <= 4 else ("k5..12" if case["k"] <= 12 else "k13+"))
+        feats.add(f"scans{case['R']}" if case["R"] <= 6 else "scans7+")
+        if len(names) > 5:
+            feats.add("lines6+")
+        dd = [digits(nm) for nm in names]
+        if any(d >= 2 ** 53 for d in dd):
+            feats.add("names:number>=2**53")
+            if len({float(d) for d in dd}) < len(set(dd)):
+                feats.add("names:numbers-equal-as-float64")
+        if any(len("".join(c for c in nm if c in "0123456789")) >= 17 and nm.lstrip("abcdefghijklmnopqrstuvwxyzABCDEFGHIJKLMNOPQRSTUVWXYZ_")[:1] == "0"
+               for nm in names):
+            feats.add("names:leading-zeros-17+digits")
+        import re as _re
+        if any(len(_re.findall(r"[0-9]+", nm)) > 1 for nm in names):
+            feats.add("names:several-digit-groups")
+        if any(ord(c) > 127 for nm in names for c in nm):
+            feats.add("names:non-ascii")
+        if case["msms"] and case.get("xadd"):
+            rows = case["xadd"]["rows"]
+            pros, pres = [r["product"] for r in rows], [r["precursor"] for r in rows]
+            if len(set(pros)) < len(pros):
+                feats.add("msms:shared-product")
+            if len(set(pres)) < len(pres):
+                feats.add("msms:shared-precursor")
+        if case["decimals"] >= 4:
+            feats.add("csv:decimals>=4")
+        gaps = [[b["ticks"] - a["ticks"] for a, b in zip(f["scans"], f["scans"][1:])] for f in case["files"]]
+        if any(g and max(g) > 3 * max(1, min(g)) for g in gaps):
+            feats.add("times:irregular")
         feats.add("msms" if case["msms"] else ("ms+xaddition" if case["xadd"] else "ms"))
         feats.add("meta:" + "".join(c for c, v in (("X", case["xml"]), ("C", case["csv"]), ("A", case["acq"]), ("D", case["xadd"]))
                                      if v is not None))
@@ -939,6 +1408,25 @@ class C02(Prop):
         log = case["xml"] or case["csv"] or []
         if any(e["result"] != "Pass" for e in log):
             feats.add("log:fail")
+            if log[0]["result"] != "Pass":
+                feats.add("log:fail-first")
+            if log[-1]["result"] != "Pass":
+                feats.add("log:fail-last")
+        passed = [e["file"] for e in log if e["result"] == "Pass" and e.get("file")]
+        if any(passed.count(x) >= 3 for x in set(passed)):
+            feats.add("log:acquired-three-times")
+        if log and sum(e["result"] == "Pass" for e in log) == 1 and len(log) >= 3:
+            feats.add("log:all-but-one-failed")
+        lines = sp.get("methods")
+        if isinstance(lines, list) and len(lines) >= 2:
+            has = {f["name"]: f["csv"] is not None for f in case["files"]}
+            if any(has.get(x) for x in lines):
+                if not has.get(lines[0], True):
+                    feats.add("csv:first-line-blank")
+                if not has.get(lines[-1], True):
+                    feats.add("csv:last-line-blank")
+                if sum(bool(has.get(x)) for x in lines) == 1:
+                    feats.add("csv:single-export")
         files = [e["file"] for e in log if e["result"] == "Pass" and e.get("file")]
         if len(files) != len(set(files)):
             feats.add("log:repeat")
@@ -962,13 +1450,32 @@ class C02(Prop):
                                                             for e in case["listing"]):
             feats.add("scan-raises:no-digit")
         # descriptors alone (sizes >= 3, clean log, every order equal, all metadata) do not make a case non-trivial
-        boundary = {f for f in feats if f in ("lines1", "lines2", "k1", "k2", "scans2") or "!=" in f or f.startswith(("log:", "csv:", "load:", "method-"))
+        boundary = {f for f in feats if f in ("lines1", "lines2", "k1", "k2", "scans2", "k13+", "scans7+", "lines6+") or "!=" in f
+                    or f.startswith(("log:", "csv:", "load:", "method-", "names:", "msms:", "times:"))
                     or f in ("binary-unreadable", "binary-csv-agreement", "acq==log", "msms", "counts-per-second", "scan-raises:no-digit")
                     or (f.startswith("meta:") and f != "meta:XCAD")}
         return feats if boundary else set()
 
     # ------------------------------------------------------------------ shrinking
     def shrink(self, case):
+        if case.get("kind") == "history":
+            steps = case["steps"]
+            stamps = list(case.get("stamps") or ["fresh"] * len(steps))
+            if len(steps) > 2:   # drop a step (a history has at least two)
+                for i in range(len(steps)):
+                    yield {**case, "steps": steps[:i] + steps[i + 1:], "stamps": stamps[:i] + stamps[i + 1:], "kinds": ["shrunk"]}
+            if len(steps) == 2:  # does the last batch fail on its own?
+                yield steps[-1]
+            if case.get("edit"):
+                yield {**case, "edit": False}
+            if any(x == "preserved" for x in stamps):
+                yield {**case, "stamps": ["fresh"] * len(steps)}
+            for i, st in enumerate(steps):
+                for j, cand in enumerate(self.shrink(st)):
+                    if j >= 12:
+                        break
+                    yield {**case, "steps": steps[:i] + [cand] + steps[i + 1:]}
+            return
         files = case["files"]
         calls = case.get("calls") or []
         if len(calls) > 1:  # a single call, then all but one
